@@ -70,8 +70,12 @@ contract('MatlabWrapper._group_methods',
 
 contract('MatlabWrapper.class_comment', params={'instantiated_class': 'ref:InstantiatedClass'}, returns='str',
          assumed=True, note='comment text only (no gateway call); type-level contract')
+# C10: the properties block holds the pointer property, then one line per declared property in declared order
 contract('MatlabWrapper.wrap_properties_block', params={'class_name': 'str', 'inst_class': 'ref:InstantiatedClass'},
-         returns='str', assumed=True, note='properties block text only; type-level contract')
+         returns='str',
+         result_is="'properties\\n' + '  ptr_' + class_name + ' = 0' + "
+                   "(('\\n' + '\\n'.join(['  ' + p.name for p in inst_class.properties])) if len(inst_class.properties) > 0 else '') "
+                   "+ '\\nend\\n'")
 contract('MatlabWrapper.wrap_enum', params={'enum': 'ref:Enum'}, returns='tuple[str,str]',
          result_is="(enum.name + '.m', ml_enum_text(enum))")
 contract('FormatMixin._clean_class_name', params={'self': 'ref:MatlabWrapper', 'instantiated_class': 'ref:InstantiatedClass'}, returns='str',
